@@ -79,8 +79,9 @@ def seq_len(xs):
 
 
 def seq_get(xs, i):
-    """xs[i] for 0 <= i < len(xs) (no negative indexing, spec-level total: caller guards)."""
-    return xs[i]
+    """xs[i] for 0 <= i < len(xs); total at spec level: None outside the range (callers guard the
+    index, but clause arguments are evaluated eagerly)."""
+    return xs[i] if 0 <= i < len(xs) else None
 
 
 def vec_get(v, i):
@@ -98,6 +99,21 @@ def is_none(x):
 def opt_eq(a, b):
     """Equality of two optional enum/int values (None == None)."""
     return a is b if (a is None or b is None or isinstance(a, enum.Enum)) else a == b
+
+
+def opt_or(x, default):
+    """x if x is not None else default."""
+    return default if x is None else x
+
+
+def seq_appended(new, old, x):
+    """new == old + [x]"""
+    return list(new) == list(old) + [x]
+
+
+def seq_last_is(xs, k, v):
+    """len(xs) >= k and xs[-k] is v   (k >= 1 concrete)."""
+    return len(xs) >= k and xs[-k] is v
 
 
 INTRINSICS = {}
